@@ -350,7 +350,7 @@ pub fn run(ctx: &Ctx) -> PropResult {
     let mut all: Vec<&'static IfaceDesc> = vec![ctx.iface("mini"), ctx.iface("pzoo")];
     all.extend(ctx.random_ifaces());
     let shards = 64usize;
-    let cases = ctx.scaled(if ctx.thorough { 14_000 } else { 600 });
+    let cases = ctx.scaled(if ctx.thorough { 80_000 } else { 5_000 });
     let accs = par::run_shards(shards, ctx.threads, |i| shard(ctx, &all, i, cases), |h| ctx.on_hang(h));
     let mut matrix: BTreeMap<(String, u8, &'static str), u64> = BTreeMap::new();
     let mut hist = HashSet::new();
